@@ -79,10 +79,11 @@ def family(tier, seed, with_mutations=False):
     r3, i3 = syntaxrun.items("prog", progs=progs)
     tlcs += [r1, r2, r3]
     its = [("expr", it["src"]) for it in i1] + [("stmt", it["src"]) for it in i2] + [("prog", it["src"]) for it in i3]
-    if tier == "quick":
-        stm = [x for x in its if x[0] == "stmt"]
-        rnd.shuffle(stm)
-        its = [x for x in its if x[0] != "stmt"] + stm[:400]
+    # TLC enumerates the whole statement family (92 000 trees at depth 2); the implementation is run on a
+    # seeded sample of it: with six re-laid-out variants of every text the full family does not fit the budget
+    stm = [x for x in its if x[0] == "stmt"]
+    rnd.shuffle(stm)
+    its = [x for x in its if x[0] != "stmt"] + stm[:400 if tier == "quick" else 6000]
     its += signatures(rnd, 40 if tier == "quick" else 300)
     corpus = [(n, s.split("\n// args: ")[0].rstrip("\n") + "\n") for n, s in fe.corpus()]
     if tier == "quick":
